@@ -147,6 +147,27 @@ def run(chk, prop):
             raise core.MachineryError('model-level invariant violated in %s (%s): the specification of the '
                                       'repaired mechanism is inconsistent\n%s' % (cfg, r.violated, r.out[-1500:]))
     chk.exhaustive = True
+    if prop in ('C04', 'C13'):
+        # unbounded: Apalache proves that IndInv is an inductive invariant of the numeric Content-Length reader and implies the
+        # properties, for ALL data lengths, Content-Lengths, buffers and limits (MC_Body's NumRefines ties the numeric machine
+        # to the byte-level model; the traces tie it to the code)
+        obligations = [('base: Init => IndInv', ['--init=ApaInit', '--inv=IndInv', '--length=0', '--next=NNext']),
+                       ('step: IndInv /\\ Next => IndInv\'', ['--init=IndInit', '--inv=IndInv', '--length=1', '--next=NNext']),
+                       ('IndInv => NExact /\\ NNoOverRead /\\ NSizeLimit /\\ NSpooling', ['--init=IndInit', '--inv=Safety', '--length=0', '--next=NNext'])]
+
+        def apa(ob):
+            def job():
+                w = core.tla_workspace()
+                return ob[0], core.run_apalache(w, 'BodyClNumApa', ob[1])
+            return job
+        done = 0
+        for name, (ok, tail, wall) in core.parallel([apa(o) for o in obligations], max_workers=3):
+            chk.tlc_cmds.append('apalache %s: %s, %.1fs' % (name, 'NoError' if ok else 'FAILED', wall))
+            if not ok:
+                raise core.MachineryError('Apalache obligation failed: %s\n%s' % (name, tail))
+            done += 1
+        chk.extra['apalache_obligations'] = len(obligations)
+        chk.extra['apalache_discharged'] = done
     # 2. spec -> code: one witness schedule per distinct terminal model state
     traces = []
     for sc in COVER[prop]:
